@@ -8,7 +8,55 @@ OdfModel/Traverse.lean (positions, payloads, repeat attribute)."""
 from __future__ import annotations
 
 import core
+import heapwalk
 import tables as T
+
+HP: list = []          # finished ownership traces (requests for the `hp` model), run at the end
+
+
+def heap_part(chk, t, rng, rle, W, H):
+    """the detached clause as a statement on aliasing (OdfModel/Heap, theorems returned_copies_*): the table is twin 0, every
+    object a getter returns is a twin of its own; the live Python objects (wrappers, their dicts and lists, lxml trees) are
+    walked after the read and after each modification of a returned object: an object reachable from two twins, or a
+    modification of returned object i that changes or creates an object of the table or of returned object j, is not a
+    trace of the model"""
+    getters = [("get_cell", lambda: [t.get_cell((rng.randrange(W + 1), rng.randrange(H + 1)))]),
+               ("get_row", lambda: [t.get_row(rng.randrange(H + 1))]),
+               ("get_column", lambda: [t.get_column(rng.randrange(W + 1))]),
+               ("traverse", lambda: list(t.traverse())),
+               ("rows", lambda: t.rows),
+               ("get_rows", lambda: t.get_rows()),
+               ("cells", lambda: [c for r in t.cells for c in r]),
+               ("get_cells", lambda: [c for r in t.get_cells() for c in r]),
+               ("traverse_columns", lambda: list(t.traverse_columns())),
+               ("columns", lambda: t.columns),
+               ("get_column_cells", lambda: t.get_column_cells(rng.randrange(max(W, 1)))),
+               ("Row.traverse", lambda: list(t.get_row(rng.randrange(max(H, 1)), clone=False).traverse())),
+               ("Row.cells", lambda: t.get_row(rng.randrange(max(H, 1)), clone=False).cells),
+               ("Row.get_cell", lambda: [t.get_row(rng.randrange(max(H, 1)), clone=False).get_cell(rng.randrange(W + 1))])]
+    for getter, fn in rng.sample(getters, 3):
+        case = {**rle, "getter": getter, "model": "heap"}
+        tr = heapwalk.HeapTrace(case)
+        tr.step({0: t}, 0, "the table before the read")
+        objs = [o for o in fn() if o is not None]
+        if len(objs) > 4:
+            objs = rng.sample(objs, 4)
+        tr.step({0: t}, 0, f"{getter} (a read may fill caches of the table)")
+        twins = {0: t}
+        for i, o in enumerate(objs):
+            twins[i + 1] = o
+            tr.step({i + 1: o}, i + 1, f"{getter}: birth of returned object {i}")
+        for i, o in enumerate(objs):
+            mutate(o, rng)
+            tr.step(twins, i + 1, f"modification of returned object {i}")
+        tr.finish()
+        HP.append(tr)
+        chk.count("getter", getter + " (ownership trace)")
+        chk.case((repr(rle), getter, "heap", len(objs)), nontrivial=bool(objs))
+        for k, owner, first_owner, path, first_path, tname in tr.shared[:3]:
+            chk.fail({**case, "shared_object": tname, "reached_from": "the table" if owner == 0 else f"returned object {owner - 1}", "as": path,
+                      "owned_by": "the table" if first_owner == 0 else f"returned object {first_owner - 1}", "there": first_path},
+                     f"{getter}: a mutable {tname} is reachable from the returned object and from {'the table' if 0 in (owner, first_owner) else 'another returned object'}: not a detached copy")
 
 
 def rep_of(obj):
@@ -257,10 +305,22 @@ def run(chk: core.Check) -> None:
                     got = list(fresh_row.traverse(start=s0, end=e0))
                     exp = "ok " + (" ".join(f"{c.x}:{T.pay_id((c.get_value(), c.style))}:{'N' if c.repeated is None else c.repeated}" for c in got) if got else "-")
                     reqs.append((f"row trav {'N' if s0 is None else s0} {'N' if e0 is None else e0}", exp, {**rle, "row": spec, "start": s0, "end": e0}))
+            if tno < chk.n(120, 1200):
+                heap_part(chk, t, rng, rle, W, H)
+                if t.serialize() != base:
+                    chk.fail({**rle, "part": "ownership traces"}, "after reads and modifications of the returned objects the table's XML differs")
         except Exception as e:  # noqa: BLE001
             import traceback
 
             chk.fail({**rle, "exception": repr(e), "trace": traceback.format_exc()[-600:]}, f"a getter raised {type(e).__name__}")
+    hreqs = [r for tr in HP for r in tr.reqs]
+    for (q, exp, case), ans in zip(hreqs, core.run_driver([q for q, _, _ in hreqs])):
+        if exp != ans:
+            if ans == "foreign":
+                chk.fail({**case, "line": q[:120]}, f"{case.get('getter')}: modifying a returned object changed or created a mutable object of "
+                         + ("the table" if case.get("of_twin") == 0 else "another returned object") + " (ownership model: refused)")
+            else:
+                chk.disagree({**case, "line": q[:120]}, f"ownership trace: impl {exp!r} != model {ans!r}")
     answers = core.run_driver([q for q, _, _ in reqs])
     for (q, exp, case), ans in zip(reqs, answers):
         if exp is None:
